@@ -117,7 +117,7 @@ def loader_job(size, secs, tier, prefix, free_header=False):
             d['SOFF%d' % i] = off; d['SSZ%d' % i] = sz
         parts.append('%s%s' % (SECNAMES.get(t, str(t)), '@sym' if off is None else '@%d+%d' % (off, sz)))
     if free_header: d['FREE_HEADER'] = None
-    nm = '%s_loader_sz%d_%s' % (prefix, size, '_'.join(parts) or 'nosec')
+    nm = '%s_loader_sz%d_%s%s' % (prefix, size, '_'.join(parts) or 'nosec', '_freehdr' if free_header else '')
     def tot(t, per): return max([sz // per for (ty, off, sz) in secs if ty == t and sz is not None] + [0])
     nstr = sum(sz // 4 for (ty, off, sz) in secs if ty == 2 and sz is not None)
     maxbody = max([sz for (ty, off, sz) in secs if sz is not None] + [0])
